@@ -326,6 +326,15 @@ def closedness_problems(record):
     def known(name, local_names):
         return name in local_names or name in g or name in l or hasattr(_builtins, name) or name in top_defs
 
+    # (4) helpers that walk a class hierarchy are handed classes: the argument of iter_all_subclasses(..) evaluates to a type
+    for c_ in ast.walk(mod):
+        if isinstance(c_, ast.Call) and isinstance(c_.func, ast.Name) and c_.func.id == "iter_all_subclasses" and len(c_.args) == 1:
+            try:
+                tgt_ = eval(compile(ast.Expression(c_.args[0]), "<closedness>", "eval"), dict(g), dict(l))
+            except Exception:
+                continue  # reported by (1)/(2)
+            if not isinstance(tgt_, type):
+                problems.append(f"iter_all_subclasses({ast.unparse(c_.args[0])}) (line {c_.lineno}) is handed {tgt_!r}, which is not a class")
     # (3) a name of the form <module>_<func>__locals__<Class> is the identifier the generator gives a local class:
     #     whatever is bound under it must be usable as that class (not the TypeVar it substitutes, not an Annotated
     #     wrapper around it)
